@@ -230,9 +230,33 @@ def run_case(ctx, index, case_seed):
         check_layout(ctx, dict(case, layout_no=j), stmts, ref, lrng)
 
 
+COMMENT_ONLY = ['>>> # just a comment', '    >>> # comment A\n\n    prose\n\n    >>> # comment B',
+                'Summary.\n\nExample:\n    >>> # nothing but this\n    >>> # and this']
+
+
+def check_comment_only(ctx):
+    """directed: doctests that hold nothing but comments run nothing and are reported skipped"""
+    for k, doc in enumerate(COMMENT_ONLY):
+        ctx.evaluation()
+        exs, wl, printed = harness.collect(doc, style='google' if doc.startswith('Summary') else 'freeform')
+        case = {'directed': 'comment-only', 'doc': doc}
+        if len(exs) != 1:
+            ctx.violation('not-collected-once', 'comment-only docstring yields %d doctests\n%s' % (len(exs), doc), case)
+            continue
+        rec = harness.run_doctest(exs[0])
+        if rec.raised is not None or not rec.summary['skipped'] or rec.T or rec.audit.events:
+            ctx.violation('comment-only-not-skipped', 'a doctest of comments only reports %s, event log %r, %d compile/exec '
+                          'events\n%s' % (harness.outcome(rec.summary), rec.T, len(rec.audit.events), doc), case)
+        else:
+            ctx.cell('comment-only-skipped')
+
+
 def run_shard(ctx):
     import warnings
     warnings.simplefilter('ignore')
+    if ctx.shard == 0:
+        for _ in range(4):
+            check_comment_only(ctx)
     n = ctx.pick(4000, 60000)
     for idx in ctx.my_indices(n):
         run_case(ctx, idx, ctx.case_seed(idx))
@@ -241,6 +265,9 @@ def run_shard(ctx):
 def replay(case, ctx):
     import warnings
     warnings.simplefilter('ignore')
+    if case.get('directed') == 'comment-only':
+        check_comment_only(ctx)
+        return
     run_case(ctx, case['index'], case['case_seed'])
 
 
